@@ -130,21 +130,13 @@ func (k *Key) Patterns() []Pattern {
 	}
 	sortStrings(names)
 	for _, n := range names {
-		s := secrets[n]
 		if strings.HasSuffix(n, "-decimal") {
-			add(n, s)
+			add(n, secrets[n])
 			continue
 		}
-		add(n+"/raw", s)
-		add(n+"/hex-lower", []byte(hex.EncodeToString(s)))
-		add(n+"/hex-upper", []byte(strings.ToUpper(hex.EncodeToString(s))))
-		for p := 0; p < 3; p++ {
-			add(fmt.Sprintf("%s/b64std@%d", n, p), alignedB64(base64.RawStdEncoding, s, p))
-			add(fmt.Sprintf("%s/b64url@%d", n, p), alignedB64(base64.RawURLEncoding, s, p))
+		for _, p := range SecretPatterns(k.Name, n, secrets[n]) {
+			add(p.Form, p.Bytes)
 		}
-		// the complete unpadded encodings (JWK "d" member is exactly b64url of the fixed-width scalar)
-		add(n+"/b64url-full", []byte(base64.RawURLEncoding.EncodeToString(s)))
-		add(n+"/b64std-full", []byte(base64.RawStdEncoding.EncodeToString(s)))
 	}
 	// whole-file forms
 	add("der/raw", k.DER)
@@ -165,6 +157,27 @@ func (k *Key) Patterns() []Pattern {
 		add("pkcs8/hex-lower", []byte(hex.EncodeToString(pk8)))
 	}
 	return dedup(out)
+}
+
+// SecretPatterns derives the searchable renderings of one secret byte string: raw, hex (both cases), base64 std/url at
+// all three alignments and the complete unpadded encodings (a JWK secret member is exactly b64url of the value).
+func SecretPatterns(owner, name string, s []byte) []Pattern {
+	var out []Pattern
+	add := func(form string, b []byte) {
+		if len(b) >= MinLen {
+			out = append(out, Pattern{Key: owner, Form: form, Bytes: append([]byte(nil), b...)})
+		}
+	}
+	add(name+"/raw", s)
+	add(name+"/hex-lower", []byte(hex.EncodeToString(s)))
+	add(name+"/hex-upper", []byte(strings.ToUpper(hex.EncodeToString(s))))
+	for p := 0; p < 3; p++ {
+		add(fmt.Sprintf("%s/b64std@%d", name, p), alignedB64(base64.RawStdEncoding, s, p))
+		add(fmt.Sprintf("%s/b64url@%d", name, p), alignedB64(base64.RawURLEncoding, s, p))
+	}
+	add(name+"/b64url-full", []byte(base64.RawURLEncoding.EncodeToString(s)))
+	add(name+"/b64std-full", []byte(base64.RawStdEncoding.EncodeToString(s)))
+	return out
 }
 
 func dedup(in []Pattern) []Pattern {
